@@ -516,3 +516,58 @@ def messages(proto, rng, shapes, packet=None):
     for s in shp:
         out.append((s, gen_packet(proto, p, rng, s, alt)))
     return out
+
+
+def rich_proto(rng, tag, npk=None):
+    """protocol with >= 2 entries in every map the emitters range over: many packets, several match fields per packet,
+    several cross-packet references, fixed strings in every padding form, MetaData-typed fixed strings shared by fields."""
+    nm = Namer(rng)
+    npk = npk or rng.randint(5, 12)
+    names = ['Root' + tag] + [nm.fresh('Pk') for _ in range(npk - 1)]
+    leafn = max(2, npk // 3)
+    ents = [MetaEntry(nm.fresh(), base=fix('x', rng.choice([3, 6]))), MetaEntry(nm.fresh(), base=fix('x', 4, zchar=True)),
+            MetaEntry(nm.fresh(), base=num('x', rng.choice(NUM_TYPES))), MetaEntry(nm.fresh(), base=dyn('x'))]
+    for e in ents:
+        e.base.name = e.name
+    metadata = [('Meta' + tag, ents)]
+    packets = []
+    for i in range(npk - 1, -1, -1):
+        later = names[i + 1:]
+        fields = []
+        if len(later) >= 2 and i < npk - leafn:
+            for _ in range(rng.randint(2, 3) if i == 0 or rng.random() < 0.6 else 1):
+                kn = nm.fresh('Ky')
+                fields.append(num(kn, rng.choice(['u8', 'u16', 'u32'])))
+                alts = rng.sample(later, min(len(later), rng.randint(2, 4)))
+                kv = 0
+                pairs = []
+                for a in alts:
+                    kv += rng.randint(1, 3)
+                    pairs.append(([kv], a))
+                fields.append(Field('match', nm.fresh('By'), key=kn, pairs=pairs))
+            for a in rng.sample(later, min(len(later), rng.randint(2, 3))):
+                named = rng.random() < 0.5
+                if not named and any(f.name == a for f in fields):
+                    named = True
+                fields.append(Field('ref', nm.fresh() if named else a, packet=a, named=named, repeat=rng.random() < 0.3))
+        for _ in range(rng.randint(2, 5)):
+            r = rng.random()
+            if r < 0.25:
+                fields.append(fix(nm.fresh(), rng.choice([2, 5, 9]), pad=rng.choice(PADS + [None]), repeat=rng.random() < 0.3))
+            elif r < 0.4:
+                fields.append(fix(nm.fresh(), rng.choice([1, 4]), zchar=True, repeat=rng.random() < 0.3))
+            elif r < 0.6:
+                e = rng.choice(ents)
+                fields.append(Field('meta', nm.fresh(), entry=e.name, named=True, repeat=rng.random() < 0.3))
+            else:
+                fields.append(simple_field(nm, rng, ('num', 'dyn', 'fix'), 0.3))
+        rng.shuffle(fields)
+        # keep each match key before its match field
+        for f in [x for x in fields if x.kind == 'match']:
+            ki = next(j for j, x in enumerate(fields) if x.name == f.key)
+            mi = fields.index(f)
+            if ki > mi:
+                fields[ki], fields[mi] = fields[mi], fields[ki]
+        packets.insert(0, Packet(names[i], fields, root=(i == 0)))
+    cfg = dict(rng.choice(CONFIGS))
+    return Proto(packets, base_options(tag, cfg), metadata, tag=tag)
